@@ -7,8 +7,10 @@ use serde_json::Value;
 pub mod bcommon;
 pub mod c01;
 pub mod c04;
+pub mod c05;
 pub mod c06;
 pub mod c12;
+pub mod c14;
 pub mod c15;
 pub mod c16;
 pub mod c17;
@@ -88,9 +90,11 @@ pub fn run_check(id: &str, tier: &str) -> i32 {
     match id {
         "C01" => c01::run(tier),
         "C04" => c04::run(tier),
+        "C05" => c05::run(tier),
         "C06" => c06::run(tier),
         "C12" => c12::run_c12(tier),
         "C13" => c12::run_c13(tier),
+        "C14" => c14::run(tier),
         "C15" => c15::run(tier),
         "C16" => c16::run(tier),
         "C17" => c17::run(tier),
@@ -117,9 +121,11 @@ pub fn run_replay(path: &str) -> i32 {
     match prop.as_str() {
         "C01" => c01::replay(&f),
         "C04" => c04::replay(&f),
+        "C05" => c05::replay(&f),
         "C06" => c06::replay(&f),
         "C12" => c12::replay_c12(&f),
         "C13" => c12::replay_c13(&f),
+        "C14" => c14::replay(&f),
         "C15" => c15::replay(&f),
         "C16" => c16::replay(&f),
         "C17" => c17::replay(&f),
